@@ -129,7 +129,9 @@ class ProcessDiameterMessage:
             if avp.get_length() == AVP_HEADER_LENGTH + len(avp.data):
                 checklist_mandatory_info += 1
 
-            data = avp.data.decode("utf-8")
+            #: Whatever the peer has sent is looked at, never trusted to be
+            #: well-formed text: bytes which are not UTF-8 simply do not match.
+            data = avp.data.decode("utf-8", errors="replace")
             process_message_logging.debug(f"data: {data}.")
             if data == connection.peer_node.host_name:
                 checklist_mandatory_info += 1
@@ -157,7 +159,7 @@ class ProcessDiameterMessage:
             if avp.get_length() == AVP_HEADER_LENGTH + len(avp.data):
                 checklist_mandatory_info += 1
 
-            data = avp.data.decode("utf-8")
+            data = avp.data.decode("utf-8", errors="replace")
             process_message_logging.debug(f"data: {data}.")
             if data == connection.peer_node.realm:
                 checklist_mandatory_info += 1
